@@ -27,6 +27,14 @@ floating = _np.floating
 int64 = _np.int64
 int32 = _np.int32
 uint8 = _np.uint8
+intp = _np.intp
+int_ = _np.int_
+int16 = _np.int16
+int8 = _np.int8
+uint16 = _np.uint16
+uint32 = _np.uint32
+uint64 = _np.uint64
+float16 = _np.float16
 bool_ = _np.bool_
 datetime64 = _np.datetime64
 timedelta64 = _np.timedelta64
@@ -627,9 +635,20 @@ class ndarray:
                 self.a[p] = ite(v.a[p].b, val, self.a[p])
             return
         if kind == "lazy":
+            if isinstance(value, ndarray) and value.a.size != 1:
+                # x[np.where(c)[0] + k] = array: the selected positions are concretised (forks on the undecided condition bits)
+                pos = [p + v.shift for p in self._bool_positions_of(v.cond)]
+                vals = list((value._data_arr() if value._is_masked else value).a.flat)
+                if len(vals) != len(pos):
+                    raise ValueError(f"shape mismatch: value array of shape ({len(vals)},) could not be broadcast to indexing "
+                                     f"result of shape ({len(pos)},)")
+                n = self.a.shape[0]
+                for p, x in zip(pos, vals):
+                    if not -n <= p < n:
+                        raise IndexError(f"index {p} is out of bounds for axis 0 with size {n}")
+                    self.a[p] = cast_scalar(x, self._dt, getattr(value, "_dt", None))
+                return
             if isinstance(value, ndarray):
-                if value.a.size != 1:
-                    raise Unsupported("lazy index assignment of an array")
                 value = value.a.flat[0]
             val = cast_scalar(value, self._dt)
             n = self.a.shape[0]
@@ -1758,7 +1777,10 @@ def _like_shape(x):
 
 def full_like(x, fill_value, dtype=None):
     shape, dt = _like_shape(x)
-    return full(shape, fill_value, dtype if dtype is not None else dt)
+    r = full(shape, fill_value, dtype if dtype is not None else dt)
+    if isinstance(x, ndarray) and x._is_masked:
+        return MaskedArray(r, x._mask_copy())       # subok: a masked prototype gives a masked result with a copy of its mask
+    return r
 
 
 def ones_like(x, dtype=None):
@@ -1779,11 +1801,16 @@ def zeros_like(x, dtype=None):
 
 def empty_like(x, dtype=None):
     shape, dt = _like_shape(x)
-    return empty(shape, dtype if dtype is not None else dt)
+    r = empty(shape, dtype if dtype is not None else dt)
+    if isinstance(x, ndarray) and x._is_masked:
+        return MaskedArray(r, x._mask_copy())
+    return r
 
 
-def copy(x):
+def copy(x, order="K", subok=False):
     if isinstance(x, ndarray):
+        if x._is_masked and not subok:
+            return x._data_arr().copy()      # numpy.copy(subok=False) of a masked array is a plain ndarray of its data
         return x.copy()
     return array(x)
 
@@ -2311,8 +2338,21 @@ def _ma_masked_all(shape, dtype=float):
     return MaskedArray(d, m)
 
 
+def _ma_true_divide(a, b):
+    """numpy.ma.true_divide / numpy.ma.divide: the domained masked division, also for plain operands"""
+    a = a if isinstance(a, ndarray) else asarray(a)
+    b = b if isinstance(b, ndarray) or isinstance(b, Sym) or isinstance(b, (int, float)) else asarray(b)
+    if not a._is_masked:
+        a = MaskedArray(a, None)
+    return a / b
+
+
 def _ma_empty_like(x, dtype=None):
-    return MaskedArray(empty_like(x, dtype), None)
+    # numpy.ma.empty_like of a masked array keeps (a copy of) its mask
+    r = empty_like(x, dtype)
+    if isinstance(r, ndarray) and r._is_masked:
+        return r
+    return MaskedArray(r, x._mask_copy() if isinstance(x, ndarray) and x._is_masked else None)
 
 
 def _ma_array(data=None, mask=None, dtype=None, fill_value=None, copy=False, **kw):
@@ -2377,6 +2417,7 @@ ma = _Namespace(
     ones=lambda shape, dtype=float: _ma_full(shape, 1, dtype),
     zeros=lambda shape, dtype=float: _ma_full(shape, 0, dtype),
     empty=_ma_empty, masked_all=_ma_masked_all, empty_like=_ma_empty_like,
+    true_divide=_ma_true_divide, divide=_ma_true_divide,
     filled=filled, getmask=getmask, getmaskarray=getmaskarray, getdata=getdata, is_masked=is_masked,
     diff=_ma_diff, abs=abs, minimum=minimum, maximum=maximum,
     min=lambda x, axis=None: _ma_array(x).min(axis) if not isinstance(x, ndarray) else x.min(axis),
@@ -2493,6 +2534,17 @@ def cumsum(a, axis=None):
 
 def flatnonzero(a):
     return where(asarray(a).flatten() if not isinstance(a, ndarray) else a.flatten())[0]
+
+
+def extract(condition, arr):
+    """np.extract(cond, arr) == np.compress(ravel(cond), ravel(arr))"""
+    a = arr if isinstance(arr, ndarray) else asarray(arr)
+    c = condition if isinstance(condition, ndarray) else asarray(condition)
+    flat = a.ravel() if not a._is_masked else a._data_arr().ravel()
+    cf = (c._data_arr() if c._is_masked else c).ravel()
+    if cf._dt.kind != "b":
+        cf = cf != 0
+    return flat[cf]
 
 
 def ravel(a, order="C"):
